@@ -25,7 +25,8 @@ BOUNDS = ("Call sequences over the alphabet {uses(c1|c2|p|[c2,p]|c1-again|42), c
 OUTSIDE = ("Call sequences continuing after a bake that raised (the library leaves the recipe half-executed; the property "
            "is silent about it); objects other than two containers and one plate; argument type errors other than "
            "uses(42).")
-ASSUMPTIONS = ["the abstract state is adequate: checked, not assumed - every history reaching an abstract state gets the "
+ASSUMPTIONS = ["Recipe._rounding_noise (the library's own bound on float rounding noise, the tolerance of get_substance_used's net-decrease test) is 0 in the real-number model, where roundings at internal precision are the identity; native companion runs use the real one",
+               "the abstract state is adequate: checked, not assumed - every history reaching an abstract state gets the "
                "reference verdict for every call",
                "instruction-text helpers are replaced by non-forking summaries (subject of C19)"]
 EXPECT_OUTCOMES = ['ok']
